@@ -4,6 +4,9 @@ Three committed objects X, Y, Z (c11_classes.Node under the root), the connectio
 independent second connection that commits in between.
 
     mod k v | read k | rc k            rc: load the object, then conn.readCurrent(obj)
+    tch k                              obj._p_changed = True, then = False again (the legal idiom: the object is
+                                       registered, the connection joins, nothing is to be written — a savepoint
+                                       taken now has an EMPTY savepoint store)
     ext k v                            the second connection commits a new value of k
     sp | rb n | commit | abort | peek k
 
@@ -68,6 +71,15 @@ class World5:
                 self.objs[t[1]].v
                 self.conn.readCurrent(self.objs[t[1]])
                 r = 'ok'
+            elif t[0] == 'tch':
+                o = self.objs[t[1]]
+                o.v
+                if o._p_changed:
+                    r = 'skip'          # (modified: withdrawing would drop a real change — not this op's subject)
+                else:
+                    o._p_changed = True
+                    o._p_changed = False
+                    r = 'ok'
             elif t[0] == 'ext':
                 self.tm2.begin()
                 try:
@@ -125,6 +137,7 @@ def judge(case, real):
     com = {k: 0 for k in NAMES}
     vis = dict(com)
     dirty, touched, declared, stale = set(), set(), set(), set()
+    joined = False
     sps = []
     for idx, op in enumerate(case['ops'], 1):
         res, vec = real[idx].split(' | ')
@@ -134,7 +147,14 @@ def judge(case, real):
             vis[t[1]] = int(t[2])
             dirty.add(t[1])
             touched.add(t[1])
+            joined = True
             exp = {'ok'}
+        elif k == 'tch':
+            if t[1] in dirty:
+                exp = {'skip'}
+            else:
+                exp = {'ok'}
+                joined = True
         elif k == 'read':
             exp = {'v=%d' % vis[t[1]]}
         elif k == 'rc':
@@ -145,7 +165,7 @@ def judge(case, real):
             stale.add(t[1])
             exp = {'ok'}
         elif k == 'sp':
-            sps.append((dict(vis), set(touched)))
+            sps.append((dict(vis), set(touched), joined))
             dirty = set()
             exp = {'ok'}
         elif k == 'rb':
@@ -154,6 +174,7 @@ def judge(case, real):
                 exp = {'err:InvalidSavepoint'}
             else:
                 vis, touched, dirty = dict(sps[n][0]), set(sps[n][1]), set()
+                joined = sps[n][2]      # (a savepoint made before the connection joined: rolling back to it is abort())
                 for m in range(n + 1, len(sps)):
                     sps[m] = None
                 exp = {'ok'}
@@ -161,17 +182,19 @@ def judge(case, real):
             exp = set()
             if touched & stale:
                 exp.add('fail:Conflict')
-            if (declared - touched) & stale and touched:
+            if (declared - touched) & stale and (touched or joined):
                 exp.add('fail:ReadConflict')        # (checked only when the connection takes part in the commit)
             if not exp:
                 exp = {'ok'}
                 com.update({x: vis[x] for x in touched})
             vis = dict(com)
             dirty, touched, declared, stale, sps = set(), set(), set(), set(), []
+            joined = False
         elif k == 'abort':
             exp = {'ok'}
             vis = dict(com)
             dirty, touched, declared, stale, sps = set(), set(), set(), set(), []
+            joined = False
         elif k == 'peek':
             exp = {'v=%d' % com[t[1]]}
         else:
@@ -210,6 +233,25 @@ def gen(rng, kind):
         ops += ['mod %s %d' % (a, v + 2), 'commit', 'read %s' % b, 'mod %s %d' % (a, v + 3), 'commit']
         ops += ['read %s' % k for k in NAMES] + ['peek %s' % k for k in NAMES]
         return dict(kind=kind, n=3, ops=ops, family='readcur')
+    if rng.random() < 0.2:
+        # a savepoint of a joined connection that has nothing to write (an EMPTY savepoint store), further
+        # savepoints and rollbacks to it, then real changes and the commit
+        a, b, c = rng.sample(NAMES, 3)
+        v = rng.randrange(1, 9)
+        ops = ['tch %s' % a, 'sp']
+        if rng.random() < 0.3:
+            ops += ['sp']
+        if rng.random() < 0.5:
+            ops += ['mod %s %d' % (b, v), 'sp', 'rb 0']
+            if rng.random() < 0.5:
+                ops += ['read %s' % b]
+        if rng.random() < 0.8:
+            ops += ['mod %s %d' % (c, v + 1)]
+        if rng.random() < 0.3:
+            ops += ['rc %s' % a]
+        ops += ['commit', 'mod %s %d' % (a, v + 2), 'commit']
+        ops += ['read %s' % k for k in NAMES] + ['peek %s' % k for k in NAMES]
+        return dict(kind=kind, n=3, ops=ops, family='readcur')
     ops = []
     nsp = 0
     for _ in range(rng.choice([5, 8, 12, 16])):
@@ -218,6 +260,8 @@ def gen(rng, kind):
         v = rng.randrange(1, 10)
         if r < 0.22:
             ops.append('mod %s %d' % (k, v))
+        elif r < 0.27:
+            ops.append('tch %s' % k)
         elif r < 0.38:
             ops.append('rc %s' % k)
         elif r < 0.46:
